@@ -241,3 +241,5 @@ def run(ctx):
     check_invariant(ctx, 3)
     check_kills(ctx)
     pool.ob_phases(ctx, 8)
+    from . import c09
+    c09.check_every_pool_ticked(ctx, 8)     # the limits are enforced by the killer that runs in the pool's tick: no pool may be left out
